@@ -52,14 +52,24 @@ def load_known():
             if ln.startswith('known:'):
                 kv = dict(re.findall(r'(\w+)=("[^"]*"|\S+)', ln))
                 kv = {k: v.strip('"') for k, v in kv.items()}
-                kv['_text'] = ln[len('known:'):].strip()
+                kv['_text'] = re.sub(r'^property=\S+\s*', '', ln[len('known:'):].strip())
                 known.append(kv)
     return known
 
 
+_KNOWN = None
+
+
+def load_known_cached():
+    global _KNOWN
+    if _KNOWN is None:
+        _KNOWN = load_known()
+    return _KNOWN
+
+
 def is_known(known, prop, unit, o):
     for k in known:
-        if k.get('property') != prop or k.get('unit') != unit:
+        if prop not in k.get('property', '').split(',') or k.get('unit') != unit:
             continue
         pat = k.get('obligation', '')
         if pat and (pat == o['name'] or re.search(pat, o['description'] or '')):
@@ -125,11 +135,20 @@ def main():
             assumptions.append('[%s] callee %s replaced by its contract (assumed here; see evidence of the unit that enforces it, if any)' % (r['unit'], g))
         if r['status'] == 'undecided':
             undecided.append(r)
+        # obligations that fail under a known-finding entry (and those cbmc leaves UNKNOWN behind such a fatal failure)
+        # are reported separately and are not part of the proof count
+        kf = [o for o in r.get('failed', []) if is_known(load_known_cached(), a.prop, r['unit'], o)]
+        ev['known_finding_obligations'] = [o['description'] for o in kf]
+        counted = r['obligations']
+        if kf:
+            counted = r['discharged'] + (len(r.get('failed', [])) - len(kf))
+            ev['obligations'] = counted
+            ev['not_counted'] = {'known_findings': len(kf), 'unknown_after_fatal': r.get('unknown_after_fatal', 0)}
         if kind == 'B':
             bounded_ev.append(ev)
         else:
             units_ev.append(ev)
-            n_obl += r['obligations']
+            n_obl += counted
             n_dis += r['discharged']
         if r.get('cmds'):
             checker_cmds.append(r['cmds'][-2] if r.get('canary') else r['cmds'][-1])
